@@ -465,6 +465,47 @@ pub mod tree {
         }
     }
 
+    /// Roots of every tree of an open database: the two catalog trees and every relation visible
+    /// to a reader that sees exactly the committed state: (object id, root page, name).
+    pub fn catalog_roots(db: &crate::Database) -> Result<Vec<(u64, u64, String)>, String> {
+        use crate::schema::base::Relation;
+        use crate::storage::tuple::{TupleReader, TupleRef};
+        let pager = db.pager().clone();
+        let (min_keys, siblings) = {
+            let p = pager.read();
+            (p.min_keys_per_page(), p.num_siblings_per_side())
+        };
+        let snapshot = db.coordinator().snapshot(u64::MAX - 1).map_err(|e| e.to_string())?;
+        let schema = crate::schema::meta_table_schema();
+        let mut out = vec![(u64::MAX, 1u64, "<meta table>".to_string()), (u64::MAX, 2u64, "<meta index>".to_string())];
+        let mut meta: Btree<BtreeReadAccessor> =
+            Btree::new(1, pager.clone(), min_keys, siblings).with_accessor(BtreeReadAccessor::new());
+        if meta.is_empty().map_err(|e| e.to_string())? {
+            return Ok(out);
+        }
+        let mut cursor = meta.iter_forward().map_err(|e| e.to_string())?;
+        while let Some(pos) = cursor.next() {
+            let pos = pos.map_err(|e| e.to_string())?;
+            let rel = cursor
+                .get_tree()
+                .with_cell_at(pos, |bytes| {
+                    let reader = TupleReader::from_schema(&schema);
+                    match reader.parse_for_snapshot(bytes, &snapshot) {
+                        Ok(Some(layout)) => {
+                            let tuple = TupleRef::new(bytes, layout);
+                            tuple.to_row_with(&schema).ok().map(Relation::from_meta_table_row)
+                        }
+                        _ => None,
+                    }
+                })
+                .map_err(|e| e.to_string())?;
+            if let Some(r) = rel {
+                out.push((r.object_id(), r.root(), r.name().to_string()));
+            }
+        }
+        Ok(out)
+    }
+
     /// Raw page access through the pager (dirty cached pages are seen).
     pub struct Pages {
         pager: SharedPager,
